@@ -677,7 +677,20 @@ mutual
         let c3 := match getLastIndex (hasL compKey) c2 with
           | some (i + 1) => insertAt i f.extra c2
           | _ => insertAt (c2.length - 1) f.extra c2          -- `insert(-1, …)`
-        renderNodes env n f.nodes c3
+        -- isolated mode: `used_ctx` IS the component's `outer_context` object (one per instance, shared by all its
+        -- slot renders).  While this fill renders, that object carries the layers pushed above — visible to any
+        -- other slot of the same instance that is rendered meanwhile (through a `default=` alias).
+        let shared := env.isolated && fill.isSome && cc.outer.isSome
+        if shared then
+          modify (fun w => match alGet cid w.ctxCache with
+            | some c => { w with ctxCache := alSet cid { c with outer := some c3 } w.ctxCache }
+            | none => w)
+        let out ← renderNodes env n f.nodes c3
+        if shared then
+          modify (fun w => match alGet cid w.ctxCache with
+            | some c => { w with ctxCache := alSet cid { c with outer := cc.outer } w.ctxCache }
+            | none => w)
+        pure out
 end
 
 end Djc.Render
